@@ -274,6 +274,10 @@ func (g *aGen) line() (string, string) {
 			sc, sct = 2, "private "
 		}
 		n := aIdents[g.r.Intn(len(aIdents))]
+		if g.r.Chance(1, 5) {
+			// a field may be named with a word that is a keyword of the annotation syntax (type, class, field …)
+			n = []string{"type", "class", "field", "param", "return", "alias", "table", "fun", "enum"}[g.r.Intn(9)]
+		}
 		t, d := g.union(3, 3)
 		ct, cd := g.comment()
 		return "field " + sct + n + " " + t + ct, fmt.Sprintf("field %d ", sc) + lib.Hex([]byte(n)) + " 0 " + d + " " + hexS(cd)
@@ -493,6 +497,7 @@ type c16Block struct {
 	annot    []int    // indices (within lines) of annotation lines that nothing else depends on
 	use      string   // identifier to hover
 	keep     map[int][]string // per corruptible line: texts that must remain in the hover of `use`
+	must     []string         // texts the hover of `use` must contain in the clean file
 }
 
 func c16E2E(res *lib.Result, tier string, root *lib.Rng) error {
@@ -548,12 +553,14 @@ func c16E2E(res *lib.Result, tier string, root *lib.Rng) error {
 				fn := fmt.Sprintf("f%d", b)
 				bl := c16Block{use: fn, keep: map[int][]string{}}
 				t1, t2, t3 := aNames[r.Intn(4)], aNames[r.Intn(4)], aNames[r.Intn(4)]
-				bl.lines = append(bl.lines, "---@param aa "+t1, "---@param bb "+t2+"[]", "---@return "+t3,
-					"local function "+fn+"(aa, bb) return aa end")
-				bl.annot = []int{0, 1, 2}
-				bl.keep[0] = []string{"bb: " + t2 + "[]"}
-				bl.keep[1] = []string{"aa: " + t1}
-				bl.keep[2] = []string{"aa: " + t1, "bb: " + t2 + "[]"}
+				// two ---@return lines (the documented way to describe several results): both are kept, in order
+				t4 := aNames[r.Intn(4)]
+				bl.lines = append(bl.lines, "---@param aa "+t1, "---@param bb "+t2+"[]", "---@return "+t3, "---@return "+t4+"[]",
+					"local function "+fn+"(aa, bb) return aa, bb end")
+				bl.annot = []int{0, 1}
+				bl.keep[0] = []string{"bb: " + t2 + "[]", "->1. " + t3, "->2. " + t4 + "[]"}
+				bl.keep[1] = []string{"aa: " + t1, "->1. " + t3, "->2. " + t4 + "[]"}
+				bl.must = []string{"aa: " + t1, "bb: " + t2 + "[]", "->1. " + t3, "->2. " + t4 + "[]"}
 				blocks = append(blocks, bl)
 			default:
 				v := fmt.Sprintf("t%d", b)
@@ -637,6 +644,13 @@ func c16E2E(res *lib.Result, tier string, root *lib.Rng) error {
 		// the clean file: every line is documented syntax, none may get an annotation SYNTAX warning, and the names
 		// introduced by ---@generic are not "undefined types" (the grammar's sample names People, Car … are not declared
 		// anywhere: "not define annotate type" about THEM is expected)
+		for bi, bl := range blocks {
+			for _, m := range bl.must {
+				if bi < len(base.hov) && !strings.Contains(base.hov[bi], m) {
+					res.AddViolation("impl-vs-spec", fmt.Sprintf("the hover of %s does not show %q (every documented line of its block is to be understood): %s", bl.use, m, lib.Trunc(base.hov[bi], 300)), cleanSrc, false)
+				}
+			}
+		}
 		for k := range base.d18 {
 			if strings.Contains(k, "syntax error") || strings.Contains(k, ": GT") || strings.Contains(k, ": GK") {
 				res.AddViolation("impl-vs-spec", "a documented annotation line of a clean file gets the warning "+k, cleanSrc, false)
